@@ -37,9 +37,14 @@ NEEDS = {
  "C11-1": "non-polygon features and two or more tile matrices (one wrapper reused: data race)",
  "C11-2": "an empty table (wg.Add moved into the goroutine)",
  "C11-3": "a target busy when the router has a feature for it (send moved to a helper goroutine)",
- "C06-1": "", "C06-2": "", "C06-3": "",
+ "C06-1": "a ring starting with a zig-zag whose forward matches outnumber the reverse ones by two or more (removal range computed from the wrong count: slice bounds out of range)",
+ "C06-2": "a zig-zag directly followed by another step back (scan resumes on the last removed vertex: overlapping removal ranges)",
+ "C06-3": "a zig-zag long enough for a second corpus expansion (corpus grows by 3 segments, its end marker by 2)",
 }
 UNDETECTABLE = {
+ "C05-1": "the change is in snap.isHitMultiple (repeated-vertex lookup), part of the ring assembly, which is outside the verified functions; C05's claim covers only 'no id mapped to an empty list' and says so (ring clauses not decided)",
+ "C05-2": "the change is in snap.splitRing (orientation of unsplit rings), part of the ring assembly, outside the verified functions; orientation is listed as not decided in the C05 claim",
+ "C05-3": "the change is in snap.matchInnersToPolygons (a trusted leaf: only 'never fewer polygons than given' is assumed of it); orientation of rings is listed as not decided in the C05 claim",
  "C15-3": "the change is inside tms20.IsLatLon, which the C15 check trusts (EPSG table / CRS interface / string functions are outside the verified subset); stated in the C15 level note",
  "C08-2": "the change drops the holes of a polygon as soon as one level has collapsed; which rings end up in a level's list is decided by the ring assembly (trusted leaves, no functional specification of the per-level ring lists); the C08 claim covers the keys and the id <-> level mapping only and says so",
 }
